@@ -296,13 +296,35 @@ impl Walrus {
             FileStateTracker::register_file_if_absent(file_path);
             debug_print!("[recovery] file {}", file_path);
 
+            // Units are handed out in file order, so an all-zero unit that precedes a unit
+            // holding data was allocated (and took a block id) although nothing was ever
+            // written to it, e.g. because the first append on its topic was rejected.
+            let mut last_data_offset: Option<u64> = None;
+            let mut probe_offset: u64 = 0;
+            while probe_offset + DEFAULT_BLOCK_SIZE <= MAX_FILE_SIZE {
+                let mut probe = [0u8; 8];
+                mmap.read(probe_offset as usize, &mut probe);
+                if probe.iter().any(|&b| b != 0) {
+                    last_data_offset = Some(probe_offset);
+                }
+                probe_offset += DEFAULT_BLOCK_SIZE;
+            }
+
             let mut block_offset: u64 = 0;
             while block_offset + DEFAULT_BLOCK_SIZE <= MAX_FILE_SIZE {
-                // heuristic: if first bytes are zero, assume no more blocks
+                // A unit whose first bytes are zero holds no entries; only when no later
+                // unit holds data either is it the end of the file's blocks.
                 let mut probe = [0u8; 8];
                 mmap.read(block_offset as usize, &mut probe);
                 if probe.iter().all(|&b| b == 0) {
-                    break;
+                    match last_data_offset {
+                        Some(last) if block_offset < last => {
+                            block_offset += DEFAULT_BLOCK_SIZE;
+                            next_block_id += 1;
+                            continue;
+                        }
+                        _ => break,
+                    }
                 }
 
                 let mut used: u64 = 0;
@@ -356,7 +378,9 @@ impl Walrus {
                     }
                 }
                 if used == 0 {
-                    break;
+                    block_offset += DEFAULT_BLOCK_SIZE;
+                    next_block_id += 1;
+                    continue;
                 }
 
                 let block = Block {
